@@ -82,6 +82,21 @@ TxnStart(l, p) ==
   /\ hist' = H([rcpts |-> l, plan |-> p])
   /\ UNCHANGED <<cfg, k, pooled, rec, devs>>
 
+(* the same choice in two steps (keeps the branching factor small for -simulate) *)
+ChooseList(l) ==
+  /\ pc = "idle" /\ k < MaxTxns
+  /\ lst' = l /\ pc' = "plan"
+  /\ UNCHANGED <<cfg, k, plan, idx, acc, used, touched, pooled, rec, devs, obs, hist>>
+
+ChoosePlan(p) ==
+  /\ pc = "plan"
+  /\ plan' = p /\ idx' = 1
+  /\ acc' = EmptyD /\ used' = NoneD /\ touched' = NoneD
+  /\ pc' = IF cfg.kind = "lmtp" THEN "start" ELSE "rcpt"
+  /\ obs' = ObsTxn(obs, p)
+  /\ hist' = H([rcpts |-> lst, plan |-> p])
+  /\ UNCHANGED <<cfg, k, lst, pooled, rec, devs>>
+
 (* target.lmtp: Start connects and sends MAIL *)
 LmtpStart(res) ==
   /\ pc = "start" /\ res = plan.mail["D1"]
@@ -171,7 +186,8 @@ Finish ==
 Silent == NoBody
 
 Next ==
-  \/ (pc = "idle" /\ k < MaxTxns /\ \E l \in Lists : \E p \in Plans(cfg.kind, l) : TxnStart(l, p))
+  \/ (pc = "idle" /\ k < MaxTxns /\ \E l \in Lists : ChooseList(l))
+  \/ (pc = "plan" /\ \E p \in Plans(cfg.kind, lst) : ChoosePlan(p))
   \/ (pc = "start" /\ \E res \in {"ok", "temp"} : LmtpStart(res))
   \/ (pc = "rcpt" /\ idx <= Len(lst) /\ \E res \in {"ok", "temp", "perm"} : AddRcpt(lst[idx], res))
   \/ (pc = "rcpt" /\ idx > Len(lst) /\ AnyAccepted /\ Body(Expected))
@@ -181,6 +197,6 @@ Next ==
 Spec == Init /\ [][Next]_vars
 
 NoViolation == obs.viol = {}
-TypeOK == /\ pc \in {"idle", "start", "rcpt", "end", "fin"}
+TypeOK == /\ pc \in {"idle", "plan", "start", "rcpt", "end", "fin"}
           /\ k \in 0..MaxTxns
 =============================================================================
